@@ -131,8 +131,15 @@ PortRun(ops, i, sel, regs) ==
            [] OTHER -> (o[2] = regs[sel + 1] \/ o[2] = (regs[sel + 1] & RegMask[sel + 1])) /\ PortRun(ops, i + 1, sel, regs)
 AyPort(e) == Judge(PortRun(e.ops, 1, 0, [k \in 1..16 |-> 0]), "ayport", [ops |-> e.ops])
 
+\* through the Spectrum's ports: a one-shot envelope (shapes 0-7, 9, 15: one ramp of 32 * EP ticks, here ~74 ms, then
+\* level 0 for good) is heard, is silent nine frames later, and is heard again after R13 has been written again - with
+\* any value of that group, the same one included ("for any sequence of AY register writes")
+AyRetrig(e) ==
+    Judge(e.first_burst > 0 /\ e.quiet = 0 /\ e.second_burst > 0, "ayretrig",
+          [m |-> e.m, shape |-> e.shape, second |-> e.second, first |-> e.first_burst, quiet |-> e.quiet, again |-> e.second_burst])
+
 Step(e) ==
-    CASE e.ev = "tone" -> Tone(e) [] e.ev = "noise" -> Noise(e) [] e.ev = "env" -> Env(e) [] e.ev = "mix" -> Mix(e) [] e.ev = "hist" -> Hist(e)
+    CASE e.ev = "ayretrig" -> AyRetrig(e) [] e.ev = "tone" -> Tone(e) [] e.ev = "noise" -> Noise(e) [] e.ev = "env" -> Env(e) [] e.ev = "mix" -> Mix(e) [] e.ev = "hist" -> Hist(e)
       [] e.ev = "dac" -> Dac(e) [] e.ev = "pan" -> Pan(e) [] e.ev = "freq" -> Freq(e) [] e.ev = "ayport" -> AyPort(e)
 
 TraceNext == l <= Len(Rec) /\ Step(Rec[l]) /\ l' = l + 1
